@@ -342,7 +342,10 @@ def pos_mark_listing(arg: dict) -> dict:
         r["stage"] = "parse"
         return r
     try:
-        marks = PositionMarkVisitor().visit(tree)
+        # (a listing is a function of the source: every third call of a batch goes through ONE visitor object used for the
+        #  whole batch - the list / edit / list-again cycle of an editor - and must answer like a fresh one)
+        visitor = arg.get("_visitor") or PositionMarkVisitor()
+        marks = list(visitor.visit(tree))
     except BaseException as e:  # noqa
         r = _exc(e)
         r["stage"] = "listing"
@@ -352,7 +355,9 @@ def pos_mark_listing(arg: dict) -> dict:
 
 
 def listing_many(args: list[dict]) -> list[dict]:
-    return [pos_mark_listing(a) for a in args]
+    from explorerscript.ssb_converting.compiler.compiler_visitor.position_mark_visitor import PositionMarkVisitor
+    shared = PositionMarkVisitor()
+    return [pos_mark_listing(dict(a, _visitor=shared) if i % 3 == 2 else a) for i, a in enumerate(args)]
 
 
 def listing_and_compile(arg: dict) -> dict:
@@ -360,7 +365,12 @@ def listing_and_compile(arg: dict) -> dict:
 
 
 def listing_and_compile_many(args: list[dict]) -> list[dict]:
-    return [listing_and_compile(a) for a in args]
+    from explorerscript.ssb_converting.compiler.compiler_visitor.position_mark_visitor import PositionMarkVisitor
+    shared = PositionMarkVisitor()
+    out = []
+    for i, a in enumerate(args):
+        out.append({"listing": pos_mark_listing(dict(a, _visitor=shared) if i % 3 == 2 else a), "compiled": compile_text(a)})
+    return out
 
 
 def print_mark(arg: list) -> str:
